@@ -14,7 +14,7 @@ import tempfile
 VERIF = os.path.dirname(os.path.dirname(os.path.abspath(__file__)))
 
 MODES = {
-    'C01': ['bnd_doc', 'bnd_tables', 'c07_ol', 'c01_colspan', 'c01_specificity', 'c20_nth', 'c01_engine', 'c01_css'],
+    'C01': ['bnd_doc', 'bnd_tables', 'c07_ol', 'c01_colspan', 'c01_specificity', 'c20_nth', 'c01_engine', 'c01_css', 'bnd_mut'],
     'C02': ['bnd_tables', 'bnd_doc', 'bnd_c07', 'bnd_c04'],
     'C03': ['bnd_tables', 'bnd_doc', 'c03_elements'],
     'C04': ['bnd_c04'],
@@ -23,18 +23,19 @@ MODES = {
     'C07': ['bnd_c07', 'c07_ol', 'c07_compose'],
     'C08': ['bnd_c08'],
     'C09': ['bnd_c09', 'c16_affix'],
-    'C11': ['bnd_doc', 'bnd_tables'],
+    'C11': ['bnd_doc', 'bnd_tables', 'bnd_mut'],
     'C12': ['bnd_c12'],
     'C13': ['bnd_c13', 'c13_minwrap'],
     'C14': ['bnd_c14', 'c14_hardwrap', 'c14_elements'],
     'C15': ['bnd_c15'],
-    'C16': ['bnd_doc', 'c16_prefix', 'c16_affix', 'c16_trivial', 'c07_compose'],
+    'C16': ['bnd_doc', 'c16_prefix', 'c16_affix', 'c16_trivial', 'c07_compose', 'c16_compose'],
     'C18': ['bnd_c18'],
     'C19': ['c19', 'c19_inherit', 'c19_block', 'c19_order'],
     'C20': ['bnd_c20', 'c20_nth'],
 }
 # enumerations written earlier as replay searchers (they stop at the first hit and print `NONE <cases>` otherwise); bound stated here
 LEGACY_BOUND = {
+    'c16_compose': '50 (thorough: 200) seeded blocks inside a quote and a list item, 3 decorators with non-ASCII / wide / multi-character prefixes, widths 10..=40 step 3: when both render, the block is its content rendered at width - display width of the prefix with the prefix (then blank indentation of that width for items) in front of every line',
     'c07_ol': '<ol start=s> with s in {i64::MAX, MAX-1, i64::MIN, 0, -1, 98}, 1..3 items, widths 6 and 30: no panic',
     'c01_colspan': 'tables with colspan in {0, 1, 2, 3, usize::MAX, 2^32} in 2 rows x 2 cells, widths 1, 5, 20: no panic',
     'c01_specificity': 'one selector with 65 536 class components (run on a deep stack): no panic in the specificity counters',
@@ -51,6 +52,8 @@ LEGACY_BOUND = {
     'c14_hardwrap': '3 documents x widths 3..=8: an id whose first word is hard-wrapped still yields exactly one fragment marker',
 }
 STANDS_FOR = {
+    'c16_compose': 'do_render_node BlockQuote / Ul arms with a user decorator: prefix measured by display width, verbatim on every line',
+    'bnd_mut': 'the whole pipeline on malformed input (html5ever error recovery, process_dom_node on whatever tree results, the nom CSS grammar on broken style sheets)',
     'c06_positions': 'render_table_tree / RenderTable::new / into_cells / append_columns_with_borders as a whole: where each cell ends up relative to the column bars',
     'c07_compose': 'do_render_node (BlockQuote, Ul, Ol, Dl arms and their closures), width_minus, new_sub_renderer, append_subrender composed: compositionality of prefixed blocks',
     'c14_elements': 'process_dom_node (id / name extraction for every element kind), insert_child, and the marker paths through word buffer, pending list and sub-renderers',
